@@ -109,6 +109,7 @@ func (p *Prog) VerifyFunc(c *Contract) (res *FuncResult) {
 		for _, r := range fr.rets {
 			renv := &SpecEnv{fr: fr, heap: r.heap, old: vc.root, block: nil, idx: 0, bound: map[string]*Val{}, names: map[string]*Val{}, entryParams: true}
 			renv.block = r.block
+			fr.ghosts = fr.ghostOut[r.block] // ghost lets as bound on the paths reaching this return
 			renv.idx = 1 << 30
 			var rv *Val
 			switch len(r.vals) {
@@ -283,7 +284,7 @@ func (vc *VC) frameObligations(fr *Frame, c *Contract) {
 	}
 	al := vc.root.Get("$alloc")
 	for _, name := range sortedKeys(vc.written) {
-		if name == "$alloc" || name == "*" || strings.HasPrefix(name, "G|ghost.") {
+		if name == "$alloc" || name == "*" || strings.HasPrefix(name, "G|ghost.") || strings.HasPrefix(name, "GV|") {
 			continue
 		}
 		if strings.HasPrefix(name, "G|") {
